@@ -201,9 +201,13 @@ fn okhsl_grid(l: &mut Vec<Obl>) {
 
 pub fn register(l: &mut Vec<Obl>) {
     okhsl_grid(l);
-    // pure power curves: inverse pair and monotonicity follow from the pow axioms. For the piecewise curves (sRGB, Rec OETF,
-    // ProPhoto) the same obligations need enclosures of pow at the knee constants, which are not built: their curve is
-    // decided against the standard on both sides of the knee by c02_transfer_*, the inverse property is outside the claim.
+    // inverse pair and monotonicity of the float curves: for the pure power curves they follow from the basic pow axioms; the
+    // piecewise curves (sRGB, Rec OETF, ProPhoto) additionally need the chord/tangent enclosures of pow with grid points at
+    // the knee constants (so that z3 cannot put the power segment's value on the wrong side of the knee) and the approximate
+    // inverse-pair axiom (the code's 1/ALPHA, 1 - 1/ALPHA are only nearly the exact inverse constants).
+    curve_laws!(l, "srgb", encoding::Srgb);
+    curve_laws!(l, "rec_oetf", encoding::RecOetf);
+    curve_laws!(l, "prophoto", encoding::ProPhotoRgb);
     curve_laws!(l, "adobe", encoding::AdobeRgb);
     curve_laws!(l, "p3_gamma", encoding::P3Gamma);
     luma_edge!(l, "srgb", encoding::Srgb, wp::D65, tf::srgb_decode, tf::srgb_encode);
